@@ -216,7 +216,11 @@ Definition check_pcase (p : pcase) : nat :=
   let Ar := if p_f32 p then ArFloat32 else ArFloat in
   let n := p_n p in let k := p_k p in
   let Tj := add_jitter Ar (p_embed p) (p_jit p) k (p_T p) in
-  if ~~ mclose (p_rtol p) k k Tj (p_eigh_in p) then 1
+  (* Diagonalization: the transcribed (jitter on every entry, known finding C09-diagonalization-jitter-all-entries)
+     or the specified (diagonal) jitter is accepted, so that a repaired tree does not alarm; the harness's direct
+     predicate distinguishes them *)
+  let Tspec := add_jitter Ar false (p_jit p) k (p_T p) in
+  if ~~ (mclose (p_rtol p) k k Tj (p_eigh_in p) || (p_embed p && mclose (p_rtol p) k k Tspec (p_eigh_in p))) then 1
   else
     let: (root, inv) := root_post Ar n k (p_Q p) (p_evals p) (p_evecs p) in
     let: (dv, dq) := diag_post Ar n k (p_Q p) (p_evals p) (p_evecs p) in
@@ -231,4 +235,15 @@ Fixpoint bad_pcases (cs : seq pcase) (i : nat) : seq nat :=
   | [::] => [::]
   | c :: r => let k := check_pcase c in
               if k == 0 then bad_pcases r i.+1 else (i * 16 + k) :: bad_pcases r i.+1
+  end.
+
+(* best-probe selection: the summed residuals (recomputed by the harness with the formula of lines 202-217) and
+   the index of the probe whose inverse root _postprocess_lanczos_root_inv_decomp returned *)
+Record scase := MkSCase { s_res : fvec; s_idx : nat }.
+Definition check_scase (c : scase) : nat := if argmin ArFloat (s_res c) == s_idx c then 0 else 1.
+Fixpoint bad_scases (cs : seq scase) (i : nat) : seq nat :=
+  match cs with
+  | [::] => [::]
+  | c :: r => let k := check_scase c in
+              if k == 0 then bad_scases r i.+1 else (i * 16 + k) :: bad_scases r i.+1
   end.
